@@ -14,7 +14,10 @@ R-C32.3  explicit rejections: check_signature rejects every unsupported paramete
          both call handlers reject keywords before dispatching; multi-target assignments,
          `as` in with-items, async generators are rejected.
 R-C32.4  a built statement is dropped only when it is a compiler temporary.
-R-C32.5  calls interpreted by callee name (comptime/py, dagger/control/power) read their keywords (c32_special.py).
+R-C32.5  calls interpreted by callee name: `_handle_withitem` and `is_comptime_expression` are interpreted on `dagger()`,
+         `control(c)`, `power(n)`, `comptime(v)`, `py(v)` with and without a keyword argument -- the keyword form is rejected, the
+         plain form accepted; any OTHER function that recognises a call by its callee name is found by discovery and must read
+         `.keywords` on every accepting path (c32_special.py).
 R-C32.6  `CFGBuilder.visit_stmts` interpreted on statement sequences over {plain, jumping, `_@functional` pseudo-decorator}: every
          statement reaches the visitor once, in order; a sequence with the pseudo-decorator -- also as the last statement of a
          block -- ends in an error, never with the statement skipped (c32_stmts.py).
